@@ -41,6 +41,10 @@ def build(spec, sector=None):
     idmap = {}
     for op in spec["ops"]:
         apply_op(net, op, idmap)
+    # status flags written by the user as 0 / 1 (e.g. net.sink.in_service = 0): integer instead of boolean column
+    for table, col in spec.get("int_flags", []):
+        if table in net and len(net[table]):
+            net[table][col] = net[table][col].astype("int64")
     return net, idmap
 
 
